@@ -26,6 +26,11 @@ Special == <<
   <<"ClaimsSet", <<161, 4, 250, 63, 192, 0, 0>>, <<>> >>,                       \* exp = 1.5 as f32
   <<"ClaimsSet", <<161, 4, 251, 63, 248, 0, 0, 0, 0, 0, 0>>, <<>> >>,           \* exp = 1.5 as f64
   <<"ClaimsSet", <<161, 4, 249, 126, 0>>, <<>> >>,                              \* exp = NaN
+  (* a PROTECTED header holding a NaN in a non-preferred encoding (the parsed view of such a header is not equal to itself) *)
+  <<"CoseSign1", <<132, 76, 161, 24, 99, 251, 127, 248, 0, 0, 0, 0, 0, 0, 160, 246, 64>>, <<>> >>,     \* [h'a11863fb7ff8000000000000', {}, nil, h'']
+  <<"CoseSign1", <<132, 72, 161, 24, 99, 250, 127, 192, 0, 0, 160, 246, 64>>, <<>> >>,                \* NaN as f32
+  <<"CoseMac0", <<132, 72, 162, 24, 99, 249, 126, 0, 1, 5, 160, 65, 1, 65, 2>>, <<>> >>,               \* NaN as f16, keys unsorted
+  <<"CoseKdfContext", <<132, 1, 131, 246, 246, 246, 131, 246, 246, 246, 130, 24, 128, 72, 161, 24, 99, 250, 127, 192, 0, 0>>, <<>> >>,   \* in SuppPubInfo
   <<"Value", <<247>>, <<>> >>,                                                  \* undefined -> null
   <<"Value", <<248, 21>>, <<>> >>,                                              \* two-byte simple true
   <<"Value", <<127, 127, 97, 97, 255, 97, 98, 255>>, <<>> >> >>                 \* nested indefinite text chunks
